@@ -160,3 +160,35 @@ func init() {
 			Old: "\t\td.peekPos = 0 // reset cache\n", New: "", Rule: "PEEK-1"},
 	)
 }
+
+func init() {
+	addMutants(
+		// ---- C11/C07/C16: tables and sinks
+		Mutant{ID: "esc-table-clears-lt", Props: []string{"C11"}, File: "internal/jsonwire/encode.go",
+			Old: "\t0, 0, 0, 0, 0, 0, 0, 0, 0, 0, 0, 0, 1, 0, 1, 0, // escape '<' and '>'", New: "\t0, 0, 0, 0, 0, 0, 0, 0, 0, 0, 0, 0, 0, 0, 1, 0, // escape '<' and '>'", Rule: "TABLE-ESC"},
+		Mutant{ID: "esc-reformat-verbatim-ignores-anyescape", Props: []string{"C11", "C12"}, File: "internal/jsonwire/encode.go", Func: "ReformatString",
+			Old: "if !flags.Get(jsonflags.AnyEscape) &&\n\t\t(valFlags.IsCanonical() || flags.Get(jsonflags.PreserveRawStrings)) {", New: "if valFlags.IsCanonical() || (!flags.Get(jsonflags.AnyEscape) && flags.Get(jsonflags.PreserveRawStrings)) {", Rule: "TABLE-ESC"},
+		Mutant{ID: "esc-appendquote-html-misses-amp", Props: []string{"C11"}, File: "internal/jsonwire/encode.go", Func: "AppendQuote",
+			Old: "if !(c == '<' || c == '>' || c == '&') || flags.Get(jsonflags.EscapeForHTML) {", New: "if !(c == '<' || c == '>') || flags.Get(jsonflags.EscapeForHTML) {", Rule: "TABLE-ESC"},
+		Mutant{ID: "esc-preserve-js-only-2028", Props: []string{"C11"}, File: "internal/jsonwire/encode.go", Func: "ReformatString",
+			Old: "if (r == '\\u2028' || r == '\\u2029') && flags.Get(jsonflags.EscapeForJS) {\n\t\t\t\t\tdst = append(dst, src[lastAppendIndex:i]...)", New: "if r == '\\u2028' && flags.Get(jsonflags.EscapeForJS) {\n\t\t\t\t\tdst = append(dst, src[lastAppendIndex:i]...)", Rule: "TABLE-ESC"},
+		Mutant{ID: "esc-needescape-misses-2029", Props: []string{"C11"}, File: "internal/jsonwire/encode.go", Func: "NeedEscape",
+			Old: "if r == utf8.RuneError || r == '\\u2028' || r == '\\u2029' {", New: "if r == utf8.RuneError || r == '\\u2028' {", Rule: "TABLE-ESC"},
+		Mutant{ID: "sink-quotedname-unguarded", Props: []string{"C11", "C02"}, File: "arshal_default.go", Func: "makeStructArshaler",
+			Old: "\t\t\t\tif !f.nameNeedEscape {\n\t\t\t\t\tb = append(b, f.quotedName...)\n\t\t\t\t} else {\n\t\t\t\t\tb, _ = jsonwire.AppendQuote(b, []byte(f.name), &mo.Flags)\n\t\t\t\t}", New: "\t\t\t\tb = append(b, f.quotedName...)", Rule: "SINK-1"},
+		Mutant{ID: "sink-marshaltext-safeascii", Props: []string{"C11", "C02"}, File: "arshal_methods.go", Func: "makeMethodArshaler",
+			Old: "AppendRaw('\"', false, func(b []byte) ([]byte, error) {", New: "AppendRaw('\"', true, func(b []byte) ([]byte, error) {", Rule: "SINK-1"},
+		Mutant{ID: "sink-time-custom-format-safeascii", Props: []string{"C11", "C02"}, File: "arshal_time.go", Func: "makeTimeArshaler",
+			Old: "xe.AppendRaw(k, !m.hasCustomFormat(), m.appendMarshal)", New: "xe.AppendRaw(k, true, m.appendMarshal)", Rule: "SINK-1"},
+		Mutant{ID: "unwrite-extra-suffix", Props: []string{"C07"}, File: "jsontext/encode.go", Func: "encoderState.UnwriteEmptyObjectMember",
+			Old: "\t\tcase `[]`:\n\t\t\tn = len(`[]`)\n", New: "\t\tcase `[]`:\n\t\t\tn = len(`[]`)\n\t\tcase `00`:\n\t\t\tn = 2\n", Rule: "UNWRITE-1"},
+		Mutant{ID: "unwrite-avoidflush-misses-braces", Props: []string{"C07"}, File: "jsontext/encode.go", Func: "encoderState.avoidFlush",
+			Old: "case `ll`, `\"\"`, `{}`, `[]`:", New: "case `ll`, `\"\"`, `[]`:", Rule: "UNWRITE-1"},
+		Mutant{ID: "unwrite-null-length", Props: []string{"C07"}, File: "jsontext/encode.go", Func: "encoderState.UnwriteEmptyObjectMember",
+			Old: "n = len(`null`)", New: "n = len(`ll`)", Rule: "UNWRITE-1"},
+		Mutant{ID: "ptr-swapped-replace-order", Props: []string{"C16"}, File: "jsontext/state.go", Func: "unescapePointerToken",
+			Old: "\t\ttoken = strings.ReplaceAll(token, \"~1\", \"/\")\n\t\ttoken = strings.ReplaceAll(token, \"~0\", \"~\")\n", New: "\t\ttoken = strings.ReplaceAll(token, \"~0\", \"~\")\n\t\ttoken = strings.ReplaceAll(token, \"~1\", \"/\")\n", Rule: "PTR-1"},
+		Mutant{ID: "ptr-writer-wrong-escape", Props: []string{"C16"}, File: "jsontext/state.go", Func: "appendEscapePointerName",
+			Old: "b = append(b, \"~1\"...)", New: "b = append(b, \"~0\"...)", Rule: "PTR-1"},
+	)
+}
